@@ -16,7 +16,8 @@ CHECKS = {
             {"pkg": "cli_v2", "entries": ["VerifC14Patch", "VerifC14Errors", "VerifC14Translate"], "params": {"N": 2}},
             {"pkg": "cli_v2", "entries": ["VerifC14SetKeys", "VerifC14GitDriver", "VerifC14Yaml"], "params": {"N": 2, "KN": 1, "KM": 1}},
             {"pkg": "cli_root", "entries": ["VerifC14Diff", "VerifC14DiffV1"], "params": {"N": 1, "COLOR": 1}},
-            {"pkg": "cli_root", "entries": ["VerifC14Patch", "VerifC14Errors", "VerifC14PatchV1"], "params": {"N": 1}},
+            {"pkg": "cli_root", "entries": ["VerifC14Patch", "VerifC14Errors", "VerifC14PatchV1", "VerifC14Translate"], "params": {"N": 1}},
+            {"pkg": "cli_root", "entries": ["VerifC14SetKeys", "VerifC14GitDriver", "VerifC14Yaml"], "params": {"N": 2, "KN": 1, "KM": 1}},
         ],
         "thorough": [
             {"pkg": "cli_v2", "entries": ["VerifC14Diff"], "params": {"N": 3, "COLOR": 1}},
